@@ -5,3 +5,25 @@ add("C15",
     "real-number model of floats; shapes/ranks as listed in evidence; log grids inside the range with exp/log as axiomatised "
     "uninterpreted functions; n_points-1 a power of two for materialised linear grids",
     "DESIGN.md section 7 C15")
+add("C18",
+    "Bounded SMT check of the real arg-max primitives on symbolic arrays, symbolic masks and therefore all tie patterns: "
+    "returned position is the first unmasked maximiser (0 if all masked), returned value the masked maximum; segment_argmax "
+    "returns a row of the segment attaining its maximum; max/segment_max reductions equal the maximum over all discrete "
+    "choice combinations of each state. Eager and inside jax.jit (with a fused upstream producer).",
+    "real-number model of floats (XLA double-rounding of fused producers is outside the claim); shapes, axes subsets and "
+    "segmentations as listed in evidence",
+    "DESIGN.md section 7 C18")
+add("C14",
+    "Bounded SMT check of get_function_representation for hand-built and real spaces with symbolic value array, symbolic "
+    "continuous inputs (one query per interpolation cell incl. extrapolation), symbolic labels and a fully symbolic feasibility "
+    "indexer: result equals label/indexer lookup + multilinear blend; stored values at nodes; log grids via axiomatised exp/log.",
+    "real-number model of floats; space shapes as listed; indexer entry of the addressed combination assumed >= 0; log grids "
+    "inside the range",
+    "DESIGN.md section 7 C14")
+add("C19",
+    "Dispatchers: symbolic execution with a truly uninterpreted mapped function (custom JAX primitive -> z3 UF), so every entry of "
+    "productmap/vmap_1d/spacemap outputs is decided equal to F(x1[i1],...) for all listed name orders; wrappers: CrossHair "
+    "confirms over all paths that values are bound by name for every keyword order and that missing/unexpected arguments are rejected.",
+    "functions of 3-5 parameters, name subsets up to length 3, input lengths 2-3; CrossHair per-condition timeout 60 s with a "
+    "refuted reachability twin per condition",
+    "DESIGN.md section 7 C19", technique="symbolic execution of the real JAX code with an uninterpreted-function primitive + z3; CrossHair (z3) on the pure-Python wrappers", engine="symjax+crosshair")
